@@ -1352,7 +1352,8 @@ void mcount_exit_filter_record(struct mcount_thread_data *mtdp, struct mcount_re
 			for (i = 0, k = 0; i < mtdp->nr_events; i++) {
 				if (mtdp->event[i].idx == ASYNC_IDX)
 					flush = true;
-				if (mtdp->event[i].idx < mtdp->idx)
+				/* mtdp->idx still counts the exiting function: keep outer ones only */
+				if (mtdp->event[i].idx < mtdp->idx - 1)
 					k = i + 1;
 			}
 
